@@ -70,11 +70,12 @@ type Organism struct {
 
 // NewOrganism Creates new organism with specified genome, fitness and given generation number
 func NewOrganism(fit float64, g *Genome, generation int) (org *Organism, err error) {
+	// the network cached on the genome may predate the genome's last change: the phenotype is not adopted from it but
+	// built from the genome when first asked for
 	org = &Organism{
-		Fitness:      fit,
-		Genotype:     g,
-		orgPhenotype: g.Phenotype,
-		Generation:   generation,
+		Fitness:    fit,
+		Genotype:   g,
+		Generation: generation,
 	}
 	return org, nil
 }
